@@ -259,11 +259,33 @@ def rule_leave(ctx, rep):
     pat.require(len(keep) >= 4, "sleep/wake handshake instances vanished")
 
 
+def rule_findchunk(ctx, rep):
+    """bp arena: find_chunk() maps a reader slot to the chunk whose array contains it - both bounds (slot >= &readers[0] and
+    slot < &readers[capacity]).  With only one bound, slots of a chunk mapped below an older chunk are attributed to the older
+    one: its `used` count is decremented instead, the real chunk looks full for ever and slots of exited threads are not reused."""
+    m = ctx.mod("bp", "perfn")
+    f = m.fn("find_chunk")
+    pat.require(f is not None, "find_chunk vanished")
+    rep.touch(f)
+    n = 0
+    for p_, atoms, v in paths.ret_cases(f):
+        if v is None or v == ("c", 0):
+            continue
+        n += 1
+        lo = any(a[0] == "uge" and a[1] == ("arg", 0) and a[2][0] == "addr" and a[2][1].endswith("registry_chunk.readers[0]") for a in atoms)
+        hi = any(a[0] == "ult" and a[1] == ("arg", 0) and a[2][0] == "addr" and "registry_chunk.readers[" in a[2][1] and not a[2][1].endswith("readers[0]") for a in atoms)
+        rep.check(lo and hi, "C15.arena", "find_chunk.both-bounds", "a chunk is returned only for readers[0] <= slot < readers[capacity]",
+                  "find_chunk returns a chunk on %s: %s bound missing - a slot of another chunk is attributed to this one" % ([ir.atom_str(a) for a in atoms][-3:], "lower" if not lo else "upper"),
+                  [f.rets()[0].where()])
+    pat.require(n >= 1, "find_chunk never returns a chunk")
+
+
 RULES = [
     ("C15.listops", rule_listops),
     ("C15.lockset", rule_lockset),
     ("C15.reg", rule_reg),
     ("C15.arena", rule_arena),
+    ("C15.arena", rule_findchunk),
     ("C15.slot", rule_slot),
     ("C15.key", rule_key),
     ("C15.lists", rule_lists),
